@@ -35,4 +35,20 @@ def sortedDedup (xs : List String) : List String := (xs.eraseDups.toArray.qsort 
 form, which the grammar could not read back (`1e+21`) — plus `.0` for integral values -/
 def expectedFormatFloatLiteral : String := "func formatFloatLiteral(value float64) string { formatted := strconv.FormatFloat(value, 'f', -1, 64) if math.IsInf(value, 0) || math.IsNaN(value) || strings.ContainsRune(formatted, '.') { return formatted } return formatted + \".0\" }"
 
+/-! ### the five places hooks/C07-fix{1,2,3,5,6}.patch repair: the source text before (`old…`) and after (`fixed…`) -/
+def oldFormatFunctionNamespace : String := "if _, err := io.WriteString(output, strings.Join(typedExpression.Namespace, \".\")); err != nil { return err }"
+def fixedFormatFunctionNamespace : String := "for _, namespaceComponent := range typedExpression.Namespace { if _, err := io.WriteString(output, namespaceComponent+\".\"); err != nil { return err } }"
+def oldEnterRangeLiteral : String := "func (s *RelationshipPatternVisitor) EnterOC_RangeLiteral(ctx *parser.OC_RangeLiteralContext) { const ( stateStart int = iota stateFirstIndex stateSecondIndex ) s.RelationshipPattern.Range = &cypher.PatternRange{} state := stateStart for _, tokenLeaf := range ctx.GetChildren() { switch typedTokenLeaf := tokenLeaf.(type) { case *antlr.TerminalNodeImpl: switch typedTokenLeaf.GetSymbol().GetTokenType() { case TokenTypeAsterisk: state = stateFirstIndex case TokenTypeRange: state = stateSecondIndex default: s.ctx.AddErrors(fmt.Errorf(\"unexpected token in pattern range: %s\", typedTokenLeaf.GetText())) } case *parser.OC_IntegerLiteralContext: if value, err := strconv.ParseInt(typedTokenLeaf.GetText(), 10, 64); err != nil { s.ctx.AddErrors(fmt.Errorf(\"failed parsing range literal: %w\", err)) } else { switch state { case stateFirstIndex: s.RelationshipPattern.Range.StartIndex = &value case stateSecondIndex: s.RelationshipPattern.Range.EndIndex = &value default: s.ctx.AddErrors(fmt.Errorf(\"invalid integer literal state: %d\", state)) } } } } }"
+def fixedEnterRangeLiteral : String := "func (s *RelationshipPatternVisitor) EnterOC_RangeLiteral(ctx *parser.OC_RangeLiteralContext) { const ( stateStart int = iota stateFirstIndex stateSecondIndex ) s.RelationshipPattern.Range = &cypher.PatternRange{} state := stateStart hasRangeOperator := false for _, tokenLeaf := range ctx.GetChildren() { switch typedTokenLeaf := tokenLeaf.(type) { case *antlr.TerminalNodeImpl: switch typedTokenLeaf.GetSymbol().GetTokenType() { case TokenTypeAsterisk: state = stateFirstIndex case TokenTypeRange: state = stateSecondIndex hasRangeOperator = true default: s.ctx.AddErrors(fmt.Errorf(\"unexpected token in pattern range: %s\", typedTokenLeaf.GetText())) } case *parser.OC_IntegerLiteralContext: if value, err := strconv.ParseInt(typedTokenLeaf.GetText(), 10, 64); err != nil { s.ctx.AddErrors(fmt.Errorf(\"failed parsing range literal: %w\", err)) } else { switch state { case stateFirstIndex: s.RelationshipPattern.Range.StartIndex = &value case stateSecondIndex: s.RelationshipPattern.Range.EndIndex = &value default: s.ctx.AddErrors(fmt.Errorf(\"invalid integer literal state: %d\", state)) } } } } if startIndex := s.RelationshipPattern.Range.StartIndex; startIndex != nil && !hasRangeOperator { endIndex := *startIndex s.RelationshipPattern.Range.EndIndex = &endIndex } }"
+def oldExitNotExpression : String := "func (s *ExpressionVisitor) ExitOC_NotExpression(ctx *parser.OC_NotExpressionContext) { if len(ctx.AllNOT()) > 0 { visitor := s.ctx.Exit().(*NegationVisitor) s.Expression = visitor.Negation } } func (s *JoiningVisitor) ExitOC_NotExpression(ctx *parser.OC_NotExpressionContext) { if len(ctx.AllNOT()) > 0 { visitor := s.ctx.Exit().(*NegationVisitor) s.Joined.Add(visitor.Negation) } }"
+def fixedExitNotExpression : String := "func (s *ExpressionVisitor) ExitOC_NotExpression(ctx *parser.OC_NotExpressionContext) { if len(ctx.AllNOT()) > 0 { visitor := s.ctx.Exit().(*NegationVisitor) s.Expression = nestNegations(visitor.Negation, len(ctx.AllNOT())) } } func (s *JoiningVisitor) ExitOC_NotExpression(ctx *parser.OC_NotExpressionContext) { if len(ctx.AllNOT()) > 0 { visitor := s.ctx.Exit().(*NegationVisitor) s.Joined.Add(nestNegations(visitor.Negation, len(ctx.AllNOT()))) } }"
+def oldFormatNegationOperand : String := "if err := s.writeOperand(output, typedExpression.Expression, 4); err != nil { return err }"
+def oldEnterPropertyLookupOfPropertyExpression : String := "<missing>"
+def fixedEnterPropertyLookupOfPropertyExpression : String := "func (s *PropertyExpressionVisitor) EnterOC_PropertyLookup(ctx *parser.OC_PropertyLookupContext) { if s.numLookups++; s.numLookups > 1 { s.newUnsupportedRuleError(ctx) } }"
+def oldNewTokenLiteralIterator : String := "func newTokenLiteralIterator(astNode TokenProvider) *tokenLiteralIterator { var tokens []string for idx := 0; idx < astNode.GetChildCount(); idx++ { nextChild := astNode.GetChild(idx) if terminalNode, typeOK := nextChild.(*antlr.TerminalNodeImpl); typeOK { formattedTerminalNodeText := strings.TrimSpace(terminalNode.GetText()) if len(formattedTerminalNodeText) > 0 { tokens = append(tokens, formattedTerminalNodeText) } } } return &tokenLiteralIterator{ tokens: tokens, index: 0, } }"
+def fixedNewTokenLiteralIterator : String := "func newTokenLiteralIterator(astNode TokenProvider) *tokenLiteralIterator { var tokens []string for idx := 0; idx < astNode.GetChildCount(); idx++ { nextChild := astNode.GetChild(idx) if terminalNode, typeOK := nextChild.(*antlr.TerminalNodeImpl); typeOK { if terminalNode.GetSymbol().GetTokenType() == parser.CypherLexerSP { continue } formattedTerminalNodeText := strings.TrimSpace(terminalNode.GetText()) if len(formattedTerminalNodeText) > 0 { tokens = append(tokens, formattedTerminalNodeText) } } } return &tokenLiteralIterator{ tokens: tokens, index: 0, } }"
+
+/-- token type of SP -/
+def tokSP : Nat := ((Generated.Visitors.tokenTypes.find? (·.1 == "SP")).map (·.2)).getD 0
+
 end Dawgs.C07.Inst
